@@ -280,6 +280,20 @@ def run_unit(unit, tier="quick", want_canary=True):
             res.status = "undecided"
             res.reason = und2
     res.errors = errors
+    # thorough tier: the same proofs under two more solver seeds (a proof found once is a proof; this measures how robust
+    # the proof search is, slow or seed-dependent queries being the ones that later fail for no semantic reason)
+    if tier == "thorough" and res.status == "ok":
+        stab = {}
+        with concurrent.futures.ThreadPoolExecutor(max_workers=2) as ex:
+            futs = {sd: ex.submit(run_verus, gen, extra + ["--smt-option", f"smt.random_seed={sd}"]) for sd in (7, 13)}
+            for sd, fu in futs.items():
+                _, js_s, diags_s, _, wall_s = fu.result()
+                e_s, u_s = classify(diags_s, fns, gen_lines)
+                hard_s = [e for e in e_s if not (e["fninfo"] is not None and e["fninfo"].known)]
+                hard_0 = [e for e in errors if not (e["fninfo"] is not None and e["fninfo"].known)]
+                stab[str(sd)] = {"wall_s": round(wall_s, 1), "same_verdicts_as_seed_0": sorted((e["fn"], e["msg"]) for e in hard_s) == sorted((e["fn"], e["msg"]) for e in hard_0) and not u_s,
+                                 "differs": [f"{e['fn']}: {e['msg']}" for e in hard_s if not any(e2["fn"] == e["fn"] and e2["msg"] == e["msg"] for e2 in hard_0)][:5] + ([u_s] if u_s else [])}
+        res.verus["seed_stability"] = stab
     if js is not None and vr.get("success") is False and not errors and not undecided and not diags:
         res.status = "undecided"
         res.reason = "verus reported failure without diagnostics"
